@@ -45,7 +45,7 @@ def run(rec, hub, tier, seed, shard, nshards, budget):
     S.register_c08(hub)
     if shard == 0:
         S.check_quadrature_tables(rec, hub.fd)
-    n = 400 if tier == "quick" else 1500
+    n = 700 if tier == "quick" else 4000
     for k in range(n):
         if not budget.ok():
             break
